@@ -602,3 +602,318 @@ Proof.
     simpl sat. unfold eval_seg_top. split; now apply eval_or2_at.
   - discriminate.
 Qed.
+
+(** * Part 4 — a layout *)
+
+Lemma filter_opt_exact : forall A (p : A -> option bool) (b : A -> bool) l,
+  (forall x, In x l -> p x = Some (b x)) -> filter_opt p l = Some (filter b l).
+Proof.
+  induction l as [|x l IH]; intros H; simpl; [reflexivity|].
+  rewrite (H x (or_introl eq_refl)). rewrite IH; [|intros; apply H; now right].
+  reflexivity.
+Qed.
+
+Lemma map_snd_filter : forall A B (p : B -> bool) (l : list (A * B)),
+  map snd (filter (fun ze => p (snd ze)) l) = filter p (map snd l).
+Proof.
+  induction l as [|[a b] l IH]; simpl; [reflexivity|]. destruct (p b); simpl; now rewrite IH.
+Qed.
+
+Lemma filter_flat_map : forall A B (p : B -> bool) (f : A -> list B) l,
+  filter p (flat_map f l) = flat_map (fun x => filter p (f x)) l.
+Proof.
+  induction l; simpl; [reflexivity|]. rewrite filter_app. now rewrite IHl.
+Qed.
+
+Lemma filter_none : forall A (p : A -> bool) l, (forall x, In x l -> p x = false) -> filter p l = [].
+Proof.
+  induction l as [|x l IH]; intros H; simpl; [reflexivity|].
+  rewrite (H x (or_introl eq_refl)). apply IH. intros; apply H; now right.
+Qed.
+
+(** the complete row filters *)
+Definition q_ok (sch : schema) (q : query) (ev : event) : Prop :=
+  row_conforms sch (ev_row ev) = true /\
+  match q_where q with Some e => forall f, In f (fields_of e) -> big_u64 sch ev f = false | None => True end.
+
+Definition q_class_none (sch : schema) (q : query) : Prop :=
+  match q_where q with Some e => expr_class sch e = None | None => True end.
+
+Lemma filter_mem_exact : forall sch q ev, q_class_none sch q -> q_ok sch q ev ->
+  filter_mem sch q ev = Some (sat_query sch q ev).
+Proof.
+  intros sch q ev QC [RC BU]. unfold filter_mem, sat_query, where_conds, q_class_none, ctx_ok in *.
+  destruct (q_where q) as [e|].
+  - destruct (expr_mem_exact sch e ev QC (Coq.Init.Logic.conj RC BU)) as [c [B V]].
+    rewrite B. simpl. rewrite V. destruct (sat sch e (ev_row ev)).
+    + now rewrite andb_true_r.
+    + now rewrite andb_false_r.
+  - simpl. now rewrite andb_true_r.
+Qed.
+
+Lemma filter_seg_exact : forall sch q zrows ev, q_class_none sch q -> q_ok sch q ev -> In ev zrows ->
+  filter_seg sch q zrows ev = Some (sat_query sch q ev).
+Proof.
+  intros sch q zrows ev QC [RC BU] IN. unfold filter_seg, sat_query, where_conds, q_class_none, ctx_ok in *.
+  destruct (q_where q) as [e|].
+  - assert (HO : hollow_ok sch (hollow_in sch zrows) (ev_row ev)).
+    { intros f H. unfold hollow_in in H. rewrite forallb_forall in H. now apply H. }
+    destruct (expr_seg_exact sch _ e ev QC (Coq.Init.Logic.conj RC BU) HO) as [c [B [_ V]]].
+    rewrite B. cbn [conj]. rewrite V. destruct (sat sch e (ev_row ev)).
+    + now rewrite andb_true_r.
+    + now rewrite andb_false_r.
+  - simpl. now rewrite andb_true_r.
+Qed.
+
+(** ** Candidate zones *)
+Lemma ctag_in : forall l z t, ctag z l = Some t -> In (z, t) l.
+Proof.
+  induction l as [|[x u] l IH]; intros z t H; simpl in *; [discriminate|].
+  destruct (z =? x)%N eqn:E.
+  - apply N.eqb_eq in E. subst. inversion H. now left.
+  - right. now apply IH.
+Qed.
+
+Lemma hydrated_cmem : forall ot cand z,
+  (ot = true -> forall c, In c cand -> snd c = true) ->
+  hydrated ot cand z = false -> cmem (z_id z) cand = false.
+Proof.
+  intros ot cand z T H. unfold hydrated in H.
+  destruct (ctag (z_id z) cand) as [t|] eqn:E.
+  - destruct ot; [|discriminate]. subst. apply ctag_in in E. apply (T eq_refl) in E. discriminate.
+  - destruct (cmem (z_id z) cand) eqn:M; [|reflexivity].
+    apply ctag_some_cmem in M as [t M]. congruence.
+Qed.
+
+Lemma memN_zone_ids : forall (s : segment) z, In z s -> memN (z_id z) (zone_ids s) = true.
+Proof.
+  induction s as [|z0 s IH]; intros z H; simpl in *; [contradiction|].
+  destruct H as [->|H].
+  - now rewrite N.eqb_refl.
+  - rewrite (IH z H). apply orb_true_r.
+Qed.
+
+Definition where_sat (sch : schema) (q : query) (ev : event) : bool :=
+  match q_where q with Some e => sat sch e (ev_row ev) | None => true end.
+
+Lemma sat_query_where : forall sch q ev, where_sat sch q ev = false -> sat_query sch q ev = false.
+Proof. intros. unfold sat_query, where_sat in *. rewrite H. apply andb_false_r. Qed.
+
+Lemma existsb_leaf_holds : forall sch l (z : zone),
+  leaf_holds sch l z = true <-> exists r, In r (map ev_row (z_rows z)) /\ leaf_sat sch l r = true.
+Proof.
+  intros. unfold leaf_holds. rewrite existsb_exists. split.
+  - intros [ev [I S]]. exists (ev_row ev). split; [now apply in_map|exact S].
+  - intros [r [I S]]. apply in_map_iff in I as [ev [<- I]]. eauto.
+Qed.
+
+Lemma class_none_not_free : forall sch e, expr_class sch e = None -> not_free e = true.
+Proof.
+  induction e as [f op l|f ls|a IHa b IHb|a IHa b IHb|a IHa]; simpl; intros H; auto.
+  - destruct (expr_class sch a); [discriminate|]. rewrite IHa, IHb; auto.
+  - destruct (expr_class sch a); [discriminate|]. rewrite IHa, IHb; auto.
+  - discriminate.
+Qed.
+
+(** a zone that is not a candidate holds no row satisfying the WHERE clause *)
+Lemma non_candidate_no_match : forall sch ans q i (s : segment) z ev,
+  q_class_none sch q ->
+  (match q_where q with
+   | Some e => match build_fg e with
+               | Some g => forallb (seg_leaf_sound sch ans i s) (fg_leaves g) = true
+               | None => True
+               end
+   | None => True
+   end) ->
+  In z s -> In ev (z_rows z) ->
+  cmem (z_id z) (seg_candidates sch ans q i s) = false ->
+  where_sat sch q ev = false.
+Proof.
+  intros sch ans q i s z ev QC LS Iz Iev NC.
+  unfold seg_candidates, candidates, where_sat, q_class_none in *.
+  destruct (q_where q) as [e|].
+  - destruct (build_fg e) as [g|] eqn:BG.
+    + destruct (sat sch e (ev_row ev)) eqn:S; [|reflexivity]. exfalso.
+      assert (NF : not_free e = true) by (eapply class_none_not_free; eauto).
+      assert (C : cmem (z_id z) (collect sch (ans i) (zone_ids s) false g) = true).
+      { apply (collect_zones_sound_notfree sch (ans i) (zone_ids s) g (z_id z) (map ev_row (z_rows z))).
+        - eapply build_fg_not_free; eauto.
+        - intros l Hl Hex. rewrite forallb_forall in LS. specialize (LS l Hl).
+          unfold seg_leaf_sound in LS. rewrite forallb_forall in LS. specialize (LS z Iz).
+          apply orb_true_iff in LS as [LS|LS]; [|exact LS].
+          apply existsb_leaf_holds in Hex. rewrite Hex in LS. discriminate.
+        - exists (ev_row ev). split; [now apply in_map|]. now rewrite (build_fg_sat sch e g). }
+      congruence.
+    + rewrite cmem_untagged in NC. rewrite memN_zone_ids in NC by auto. discriminate.
+  - rewrite cmem_untagged in NC. rewrite memN_zone_ids in NC by auto. discriminate.
+Qed.
+
+Section Exact.
+  Variable sch : schema.
+  Variable ans : nat -> leaf -> option (list zid).
+  Variable q : query.
+  Hypothesis QC : q_class_none sch q.
+
+  Definition sound_from (i : nat) (ss : list segment) : Prop :=
+    match q_where q with
+    | Some e => match build_fg e with
+                | Some g => segs_leaves_sound sch ans (fg_leaves g) i ss = true
+                | None => True
+                end
+    | None => True
+    end.
+
+  Lemma sound_from_cons : forall i s ss, sound_from i (s :: ss) ->
+    (match q_where q with
+     | Some e => match build_fg e with
+                 | Some g => forallb (seg_leaf_sound sch ans i s) (fg_leaves g) = true
+                 | None => True
+                 end
+     | None => True
+     end) /\ sound_from (S i) ss.
+  Proof.
+    intros i s ss H. unfold sound_from in *. destruct (q_where q) as [e|]; [|auto].
+    destruct (build_fg e) as [g|]; [|auto]. simpl in H. now apply andb_true_iff in H.
+  Qed.
+
+  Lemma map_snd_seg_read : forall ot cand (s : segment),
+    map snd (seg_read ot cand s) = flat_map (fun z => if hydrated ot cand z then z_rows z else []) s.
+  Proof.
+    intros. unfold seg_read. induction s as [|z s IH]; simpl; [reflexivity|].
+    rewrite map_app, IH. f_equal. destruct (hydrated ot cand z); [|reflexivity].
+    rewrite map_map. simpl. apply map_id.
+  Qed.
+
+  Lemma segs_read_in : forall ot ss cs ze, In ze (segs_read ot cs ss) ->
+    exists s z, In s ss /\ In z s /\ fst ze = z_rows z /\ In (snd ze) (z_rows z).
+  Proof.
+    induction ss as [|s ss IH]; intros cs ze H; destruct cs as [|c cs]; simpl in H; try contradiction.
+    apply in_app_or in H as [H|H].
+    - unfold seg_read in H. apply in_flat_map in H as [z [Iz H]].
+      destruct (hydrated ot c z); [|contradiction].
+      apply in_map_iff in H as [ev [<- Iev]]. exists s, z. simpl. auto.
+    - destruct (IH cs ze H) as [s' [z [I1 [I2 [I3 I4]]]]]. exists s', z. simpl. auto.
+  Qed.
+
+  Lemma flat_map_ext_in' : forall A B (f g : A -> list B) l,
+    (forall x, In x l -> f x = g x) -> flat_map f l = flat_map g l.
+  Proof.
+    induction l as [|x l IH]; intros H; simpl; [reflexivity|].
+    rewrite (H x (or_introl eq_refl)). rewrite IH; [reflexivity|]. intros; apply H; now right.
+  Qed.
+
+  Lemma seg_rows_exact : forall ot i (s : segment),
+    (ot = true -> forall c, In c (seg_candidates sch ans q i s) -> snd c = true) ->
+    (match q_where q with
+     | Some e => match build_fg e with
+                 | Some g => forallb (seg_leaf_sound sch ans i s) (fg_leaves g) = true
+                 | None => True
+                 end
+     | None => True
+     end) ->
+    filter (sat_query sch q) (map snd (seg_read ot (seg_candidates sch ans q i s) s))
+    = filter (sat_query sch q) (seg_events s).
+  Proof.
+    intros ot i s T LS. rewrite map_snd_seg_read. unfold seg_events.
+    rewrite !filter_flat_map. apply flat_map_ext_in'. intros z Iz.
+    destruct (hydrated ot (seg_candidates sch ans q i s) z) eqn:H; [reflexivity|].
+    simpl. symmetry. apply filter_none. intros ev Iev. apply sat_query_where.
+    apply (non_candidate_no_match sch ans q i s z ev QC LS Iz Iev).
+    now apply (hydrated_cmem ot).
+  Qed.
+
+  Lemma segs_rows_exact : forall ot ss i,
+    (ot = true -> forall c, In c (all_candidates sch ans q i ss) -> forall z, In z c -> snd z = true) ->
+    sound_from i ss ->
+    filter (sat_query sch q) (map snd (segs_read ot (all_candidates sch ans q i ss) ss))
+    = filter (sat_query sch q) (flat_map seg_events ss).
+  Proof.
+    induction ss as [|s ss IH]; intros i T SF; simpl; [reflexivity|].
+    apply sound_from_cons in SF as [LS SF].
+    rewrite map_app, !filter_app. f_equal.
+    - apply seg_rows_exact; auto. intros O c Ic. apply (T O (seg_candidates sch ans q i s)); simpl; auto.
+    - apply IH; auto. intros O c Ic. apply (T O c). simpl. auto.
+  Qed.
+End Exact.
+
+Lemma no_untagged : forall cs,
+  existsb (fun l : list czone => existsb (fun z => negb (snd z)) l) cs = false ->
+  forall c, In c cs -> forall z, In z c -> snd z = true.
+Proof.
+  intros cs H c Ic z Iz. destruct (snd z) eqn:E; [reflexivity|]. exfalso.
+  assert (existsb (fun l : list czone => existsb (fun z => negb (snd z)) l) cs = true).
+  { apply existsb_exists. exists c. split; auto. apply existsb_exists. exists z. split; auto. now rewrite E. }
+  congruence.
+Qed.
+
+Lemma known_class_none : forall sch evs q, known_class sch evs q = None ->
+  q_class_none sch q /\
+  forall ev, In ev evs ->
+    match q_where q with Some e => forall f, In f (fields_of e) -> big_u64 sch ev f = false | None => True end.
+Proof.
+  intros sch evs q H. unfold known_class, q_class_none in *. destruct (q_where q) as [e|]; [|auto].
+  destruct (expr_class sch e); [discriminate|]. split; [reflexivity|].
+  intros ev Iev f If.
+  destruct (existsb (fun ev => existsb (big_u64 sch ev) (fields_of e)) evs) eqn:E; [discriminate|].
+  destruct (big_u64 sch ev f) eqn:B; [|reflexivity]. exfalso.
+  assert (existsb (fun ev => existsb (big_u64 sch ev) (fields_of e)) evs = true).
+  { apply existsb_exists. exists ev. split; auto. apply existsb_exists. exists f. auto. }
+  congruence.
+Qed.
+
+(** QUERY is exact for every query outside the known classes, over sound leaves, in every layout. *)
+Theorem exact_outside_known : forall sch ans L q,
+  (forall ev, In ev (events L) -> row_conforms sch (ev_row ev) = true) ->
+  known_class sch (events L) q = None ->
+  mixed_provenance sch ans L q = false ->
+  leaves_sound sch ans L q = true ->
+  run_query sch ans L q = filter (sat_query sch q) (events L).
+Proof.
+  intros sch ans L q RC KC MP LS.
+  destruct (known_class_none sch (events L) q KC) as [QC BU].
+  assert (OK : forall ev, In ev (events L) -> q_ok sch q ev) by (intros ev I; split; [apply RC; auto | apply BU; auto]).
+  unfold run_query, events. rewrite filter_app. f_equal.
+  - rewrite (filter_opt_exact _ (filter_mem sch q) (sat_query sch q)); [reflexivity|].
+    intros ev I. apply filter_mem_exact; auto. apply OK. unfold events. apply in_or_app. now left.
+  - rewrite (filter_opt_exact _ _ (fun ze => sat_query sch q (snd ze))).
+    + rewrite map_snd_filter. unfold read_rows.
+      apply segs_rows_exact; auto.
+      * intros O. unfold mixed_provenance in MP. rewrite O in MP. simpl in MP. now apply no_untagged.
+      * unfold sound_from, leaves_sound in *. destruct (q_where q); auto. destruct (build_fg e); auto.
+    + intros ze I. unfold read_rows in I. apply segs_read_in in I as [s [z [I1 [I2 [I3 I4]]]]].
+      rewrite I3. apply filter_seg_exact; auto. apply OK. unfold events. apply in_or_app. right.
+      apply in_flat_map. exists s. split; auto. unfold seg_events. apply in_flat_map. eauto.
+Qed.
+
+(** hence the answer depends only on the multiset of stored events *)
+From Coq Require Import Permutation.
+Lemma filter_perm : forall A (p : A -> bool) l l', Permutation l l' -> Permutation (filter p l) (filter p l').
+Proof.
+  induction 1; simpl; auto.
+  - destruct (p x); auto.
+  - destruct (p x), (p y); auto. apply perm_swap.
+  - eapply perm_trans; eauto.
+Qed.
+
+Theorem layout_independent : forall sch ans1 ans2 L1 L2 q,
+  Permutation (events L1) (events L2) ->
+  (forall ev, In ev (events L1) -> row_conforms sch (ev_row ev) = true) ->
+  known_class sch (events L1) q = None ->
+  mixed_provenance sch ans1 L1 q = false -> leaves_sound sch ans1 L1 q = true ->
+  mixed_provenance sch ans2 L2 q = false -> leaves_sound sch ans2 L2 q = true ->
+  Permutation (run_query sch ans1 L1 q) (run_query sch ans2 L2 q).
+Proof.
+  intros sch ans1 ans2 L1 L2 q P RC KC M1 S1 M2 S2.
+  assert (RC2 : forall ev, In ev (events L2) -> row_conforms sch (ev_row ev) = true).
+  { intros ev I. apply RC. eapply Permutation_in; [apply Permutation_sym; eauto|auto]. }
+  assert (KC2 : known_class sch (events L2) q = None).
+  { unfold known_class in *. destruct (q_where q) as [e|]; auto. destruct (expr_class sch e); auto.
+    destruct (existsb (fun ev => existsb (big_u64 sch ev) (fields_of e)) (events L1)) eqn:E1; [discriminate|].
+    destruct (existsb (fun ev => existsb (big_u64 sch ev) (fields_of e)) (events L2)) eqn:E2; [|reflexivity].
+    exfalso. apply existsb_exists in E2 as [ev [I B]].
+    assert (existsb (fun ev => existsb (big_u64 sch ev) (fields_of e)) (events L1) = true).
+    { apply existsb_exists. exists ev. split; auto. eapply Permutation_in; [apply Permutation_sym; eauto|auto]. }
+    congruence. }
+  rewrite (exact_outside_known sch ans1 L1 q), (exact_outside_known sch ans2 L2 q); auto.
+  now apply filter_perm.
+Qed.
